@@ -26,12 +26,16 @@ import (
 	"errors"
 	"strings"
 	"sync"
+	"time"
 
 	sqlite3 "github.com/mattn/go-sqlite3"
 )
 
 // DriverName is the name the wrapping driver is registered under.
 const DriverName = "sqlite3_fault"
+
+// SlowFailure is how long an injected failure of Prepare takes (persist/sqlite/sql.go: longQueryDuration = 10ms).
+var SlowFailure = 12 * time.Millisecond
 
 // ErrInjected is returned by the statement point that was chosen to fail.
 // (It must not contain "database is locked": the store retries on that.)
@@ -166,6 +170,9 @@ func (c *conn) Prepare(query string) (driver.Stmt, error) {
 
 func (c *conn) PrepareContext(ctx context.Context, query string) (driver.Stmt, error) {
 	if err := c.inj.point("prepare"); err != nil {
+		// a failing prepare is also a slow one (an I/O error rarely comes back at once): slower than the
+		// store's slow-query threshold, so that the store's slow-path and error-path are taken together
+		time.Sleep(SlowFailure)
 		return nil, err
 	}
 	s, err := c.c.PrepareContext(ctx, query)
